@@ -47,7 +47,7 @@ enum St
 };
 struct Op
 {
-  char k; // a: create ok lib1, b: create ok lib2, f: create fail, d: destroy, r: register, u: end owner, i: invoke lib_id
+  char k; // a: create ok lib1, b: create ok lib2, f: create fail, d: destroy, r: register, u: end owner, i: invoke lib_id by name, g: take the address of gfn
   int i;
 };
 static std::string ops(const Op& o) { return std::string(1, o.k) + std::to_string(o.i); }
@@ -60,6 +60,10 @@ struct Model
   int own[3] = { 0, 0, 0 };    // 0 none, 1 live owner
   int owninc[3] = { 0, 0, 0 };
   std::vector<int> order;      // live list
+  // history summary of symbol lookups per object, across incarnations: which names were ever resolved and which one last. It is
+  // part of the dedupe key because a cache the key does not know about (a new member) would otherwise be merged away
+  int ever[3] = { 0, 0, 0 };
+  int last[3] = { 0, 0, 0 };
   bool registered(int i) const { return st[i] == S_CREATED && own[i] && owninc[i] == inc[i]; }
 };
 struct World
@@ -123,14 +127,8 @@ static void observe(World& w, const std::string& kase)
           g_ptr cell;
           memcpy(&cell, pp.UNSAFE_unverified(), sizeof cell);
           if (back.UNSAFE_unverified() != p.UNSAFE_unverified() || (uintptr_t)cell != a - sb.get_sandbox_impl()->base) viol(sg("translate", "wrong-sandbox"), kase, "object " + std::to_string(i) + ": pointer stored/loaded through its memory is not translated relative to it");
-          // function pointer through the finder
-          auto pf = sb.malloc_in_sandbox<int (*)(long)>();
-          auto fa = sb.get_sandbox_function_address(gfn);
-          *pf = fa;
-          tn<int (*)(long)> fb = *pf;
-          void* wantf = symtab(m.lib[i], "gfn");
-          if ((void*)fb.UNSAFE_unverified() != wantf) viol(sg("function-address", "other-library"), kase, "object " + std::to_string(i) + " bound to library " + std::to_string(m.lib[i]) + ": get_sandbox_function_address/load resolves to a different library's function");
-          sb.free_in_sandbox(pf);
+          // (symbol lookups are NOT part of the per-step observation: a lookup changes the library's caches, so it is an
+          // operation of the alphabet - 'g' below - and histories without it are explored too)
           sb.free_in_sandbox(pp);
         }
         sb.free_in_sandbox(p);
@@ -261,6 +259,28 @@ static bool apply(World& w, const Op& op)
       m.own[i] = 0;
       break;
     }
+    case 'g': {
+      // take the address of gfn and pass it through a function-pointer cell (the finder path)
+      if (m.st[i] != S_CREATED) return true;
+      auto o = attempt([&] {
+        auto pf = sb.malloc_in_sandbox<int (*)(long)>();
+        auto fa = sb.get_sandbox_function_address(gfn);
+        *pf = fa;
+        tn<int (*)(long)> fb = *pf;
+        void* wantf = symtab(m.lib[i], "gfn");
+        if ((void*)fb.UNSAFE_unverified() != wantf) viol(sg("function-address", "other-library"), kase, "object " + std::to_string(i) + " bound to library " + std::to_string(m.lib[i]) + ": get_sandbox_function_address/load resolves to a different library's function");
+        sb.free_in_sandbox(pf);
+      });
+      sb.get_sandbox_impl()->brk = 16;
+      if (o != RET) {
+        viol(sg("function-address", "abort"), kase, "taking a function address on a created sandbox aborted");
+        return false;
+      }
+      m.ever[i] |= 2;
+      m.last[i] = 2;
+      n_nontriv++;
+      break;
+    }
     case 'i': {
       if (m.st[i] != S_CREATED) return true; // invoking a dead sandbox is outside RLBox's stated checks
       int r = -1;
@@ -270,6 +290,8 @@ static bool apply(World& w, const Op& op)
         return false;
       }
       n_nontriv++;
+      m.ever[i] |= 1;
+      m.last[i] = 1;
       if (r != m.lib[i]) viol(sg("invoke", "old-library"), kase, "object " + std::to_string(i) + " is bound to library " + std::to_string(m.lib[i]) + " but lib_id() resolved by name ran library " + std::to_string(r) + "'s function (stale symbol cache)");
       break;
     }
@@ -334,7 +356,7 @@ static std::string key(World& w)
   std::string k;
   for (int i = 0; i < 3; i++) {
     bool stale = m.own[i] && m.owninc[i] != m.inc[i];
-    k += std::to_string(m.st[i]) + std::to_string(m.lib[i]) + (w.own[i] ? (stale ? "s" : "o") : "-") + std::to_string(std::min(m.inc[i], 2)) + ";";
+    k += std::to_string(m.st[i]) + std::to_string(m.lib[i]) + (w.own[i] ? (stale ? "s" : "o") : "-") + std::to_string(std::min(m.inc[i], 2)) + "e" + std::to_string(m.ever[i]) + "l" + std::to_string(m.last[i]) + ";";
   }
   k += "|";
   for (int i : m.order) k += std::to_string(i);
@@ -399,7 +421,7 @@ int main(int argc, char** argv)
   }
   std::vector<Op> alpha;
   for (int i = 0; i < 3; i++)
-    for (char k : { 'a', 'b', 'f', 'd', 'r', 'u', 'i' }) alpha.push_back({ k, i });
+    for (char k : { 'a', 'b', 'f', 'd', 'r', 'u', 'i', 'g' }) alpha.push_back({ k, i });
   int depth = thorough ? 10 : 6;
   std::deque<std::vector<Op>> frontier;
   std::unordered_set<std::string> seen;
